@@ -124,6 +124,52 @@ theorem lookup_none_not_mem {β} (k : Str) (l : List (Str × β)) (h : lookup k 
     · simp only [List.map_cons, List.mem_cons, not_or]
       exact ⟨fun e => ‹¬ k' = k› e.symm, ih h⟩
 
+/-- appending an entry under a name that is not yet taken keeps the names pairwise distinct -/
+theorem nodup_append_fresh {β} (acc : List (Str × β)) (k : Str) (v : β)
+    (hl : ¬ (lookup k acc).isSome = true) (hn : (acc.map Prod.fst).Nodup) :
+    ((acc ++ [(k, v)]).map Prod.fst).Nodup := by
+  have hl' : lookup k acc = none := by
+    cases hlk : lookup k acc with
+    | none => rfl
+    | some v => rw [hlk] at hl; simp at hl
+  have := lookup_none_not_mem _ _ hl'
+  simp only [List.map_append, List.map_cons, List.map_nil]
+  rw [List.nodup_append]
+  refine ⟨hn, by simp, ?_⟩
+  intro a ha b hb
+  simp only [List.mem_singleton] at hb
+  subst hb
+  intro hab; subst hab; exact this ha
+
+/-- a successful merge appends the new entries, in order, and keeps the names pairwise distinct -/
+theorem mergeUnique_ok (sub acc m : ArtMap) (h : mergeUnique acc sub = .ok m) :
+    m = acc ++ sub ∧ ((acc.map Prod.fst).Nodup → (m.map Prod.fst).Nodup) := by
+  induction sub generalizing acc with
+  | nil =>
+    simp only [mergeUnique, Outcome.ok.injEq] at h
+    subst h
+    exact ⟨by simp, id⟩
+  | cons x xs ih =>
+    obtain ⟨k, v⟩ := x
+    simp only [mergeUnique] at h
+    split at h
+    · cases h
+    · rename_i hl
+      obtain ⟨h1, h2⟩ := ih _ h
+      exact ⟨by rw [h1]; simp, fun hn => h2 (nodup_append_fresh acc k v hl hn)⟩
+
+/-- the only error of a merge is the uniqueness error -/
+theorem mergeUnique_err (sub acc : ArtMap) (s : String) (h : mergeUnique acc sub = .err s) :
+    s = "not-unique" := by
+  induction sub generalizing acc with
+  | nil => simp [mergeUnique] at h
+  | cons x xs ih =>
+    obtain ⟨k, v⟩ := x
+    simp only [mergeUnique] at h
+    split at h
+    · simp only [Outcome.err.injEq] at h; exact h.symm
+    · exact ih _ h
+
 /-- what a successful walk returns: the accumulator, extended by exactly the records, keys distinct -/
 def Spec (acc m : ArtMap) (R : Str × List (Str × Str) → Prop) : Prop :=
   ∃ ext, m = acc ++ ext ∧ (∀ e, e ∈ ext ↔ R e) ∧ ((acc.map Prod.fst).Nodup → (m.map Prod.fst).Nodup)
@@ -175,19 +221,7 @@ theorem spec_aux (cfg : Cfg) (fuel : Nat) :
                   cases hf
                   rw [hho] at h2; cases h2
                   exact h3
-              · intro hn
-                have hl' : lookup (stripPath cfg.lstrip path) acc = none := by
-                  cases hlk : lookup (stripPath cfg.lstrip path) acc with
-                  | none => rfl
-                  | some v => rw [hlk] at hl; simp at hl
-                have := lookup_none_not_mem _ _ hl'
-                simp only [List.map_append, List.map_cons, List.map_nil]
-                rw [List.nodup_append]
-                refine ⟨hn, by simp, ?_⟩
-                intro a ha b hb
-                simp only [List.mem_singleton] at hb
-                subst hb
-                intro hab; subst hab; exact this ha
+              · exact fun hn => nodup_append_fresh acc _ hh hl hn
       | dir ch =>
         have hc : visitChildren cfg fuel path (sortChildren ch) acc = .ok m := by
           simp only [visit] at h
@@ -249,7 +283,9 @@ theorem fuel_aux (cfg : Cfg) (fuel : Nat) :
         simp only [visit]
         split
         · simp
-        · split <;> simp
+        · split
+          · simp
+          · split <;> simp
       | symDir ch =>
         have hc := ihc path (sortChildren ch) [] (by rw [sizeList_sortChildren]; simp [nodeSize] at hf; omega)
         simp only [visit]
@@ -258,7 +294,9 @@ theorem fuel_aux (cfg : Cfg) (fuel : Nat) :
         · split
           · simp
           · split
-            · simp
+            · intro he
+              have := mergeUnique_err _ _ _ he
+              simp at this
             · exact hc
       | dangling =>
         simp only [visit]
